@@ -27,6 +27,14 @@ Theorem C02_slice_caller_within_block : forall cap svc chunks, (total chunks <= 
 Proof. intros cap svc chunks H. split; [exact (feed_all_cap_small cap svc chunks H) | exact (feed_all_cap_chunking cap svc chunks H)]. Qed.
 Print Assumptions C02_slice_caller_within_block.
 
+(* the caller that also keeps what handle() left unread in the reader it was given (the harness's caller; listen()'s
+   persistent reader amounts to it): equal to the unbounded caller for EVERY capacity of the inner buffer, hence
+   segmentation independent and lossless after an upgrade for streams of any size *)
+Theorem C02_careful_caller_any_capacity : forall cap svc chunks,
+  feed_all_careful cap svc chunks = feed_all svc chunks.
+Proof. exact feed_all_careful_eq. Qed.
+Print Assumptions C02_careful_caller_any_capacity.
+
 Check ex_chunked. Check ex_upgrade. Check ex_slice_caller_within_block.
 (* known finding, not a theorem of the property: beyond one block the slice caller loses upgraded payload *)
 Check ex_slice_caller_drops_beyond_block.
